@@ -8,18 +8,18 @@ CONSTANTS
   MaxRecs = 2
   MaxGroups = 2
   MaxPerGroup = 2
-  HeadMax = 1
+  HeadMax = 2
   WRGs = {TRUE, FALSE}
   Prefix = "P_"
   StemWithBam = FALSE
-  Mode = "cli"
-  MaxLines = 3
+  Mode = "split"
+  MaxLines = 2
   Variant = "design"
-  NoCols = {FALSE}
-  AddChrs = {FALSE}
-  DupFlags = {FALSE}
+  NoCols = {TRUE, FALSE}
+  AddChrs = {TRUE, FALSE}
+  DupFlags = {TRUE, FALSE}
   LowQFlags = {FALSE}
-  PosMax = 1
+  PosMax = 2
   MapqReading = "ignored"
 CONSTRAINT Emit
 CHECK_DEADLOCK FALSE
